@@ -13,7 +13,7 @@ TRUSTED_BASE = [
 ]
 ASSUMPTIONS = ["single-threaded process; the caller's initial signal mask is empty; signals SIGUSR1, SIGUSR2, SIGWINCH"]
 
-SIGS = [10, 12, 28]
+SIGS = [10, 12, 28, 29, 17]      # the harness installs counting handlers for these; the exhaustive alphabet uses the first three
 SUBSETS = [[], [10], [12], [28], [10, 12], [10, 28], [12, 28], [10, 12, 28]]
 
 
@@ -24,7 +24,7 @@ def alphabet():
             if kind != "set" and not s:
                 continue
             ops.append((kind + " " + " ".join(map(str, s))).strip())
-    ops += ["raise %d" % s for s in SIGS] + ["raiset %d" % s for s in SIGS] + ["dispatch", "drop", "appblock"]
+    ops += ["raise %d" % s for s in SIGS[:3]] + ["raiset %d" % s for s in SIGS[:3]] + ["dispatch", "drop", "appblock"]
     return ops
 
 
@@ -38,12 +38,17 @@ def gen_cases(tier, seed, search):
             for seq in itertools.product(ops, repeat=n):
                 cases.append(["case e%d" % idx, "new " + " ".join(map(str, first))] + list(seq) + ["dispatch", "end"])
                 idx += 1
+    # many instances pending at one dispatch: five signals, each raised for the process and for the thread
+    many = [x for s in SIGS for x in ("raise %d" % s, "raiset %d" % s)]
+    cases.append(["case many10", "new " + " ".join(map(str, SIGS))] + many + ["dispatch", "dispatch", "end"])
+    cases.append(["case many9", "new " + " ".join(map(str, SIGS))] + many[:9] + ["dispatch", "dispatch", "end"])
+    cases.append(["case many_add", "new 10 12"] + ["add 28 29 17"] + many + ["dispatch", "remove 29", "raise 29", "dispatch", "end"])
     rnd = random.Random(seed)
     for i in range((3000 if tier == "quick" else 100000) * (4 if search else 1)):
         n = rnd.randrange(3, 13)
         seq = []
         for _ in range(n):
-            seq.append(rnd.choice(ops) if rnd.random() < 0.55 else rnd.choice(["raise %d" % rnd.choice(SIGS), "raiset %d" % rnd.choice(SIGS), "dispatch"]))
+            seq.append(rnd.choice(ops) if rnd.random() < 0.55 else rnd.choice(["raise %d" % rnd.choice(SIGS[:3]), "raiset %d" % rnd.choice(SIGS[:3]), "dispatch"]))
         cases.append(["case r%d" % i, "new " + " ".join(map(str, rnd.choice(SUBSETS[1:])))] + seq + ["dispatch", "end"])
     return cases, maxlen
 
